@@ -617,15 +617,8 @@ def standard_run(ctx, spec):
     for k in spec.get("side_keys", []):
         if k in sj:
             ctx.coverage[k] = sj[k]
-    if broke and not found_any:
-        # a proof obligation or the correspondence no longer checks: search for a
-        # concrete failing input with larger budgets before reporting
-        for s in range(spec.get("search_seeds", 3)):
-            rr = one_round(ctx.seed * 1000 + 17 + s, "search", "-s%d" % s)
-            if rr is None or found_any:
-                break
-        ctx.coverage["search_rounds_after_break"] = s + 1
-    if broke and not found_any and spec.get("deep_search"):
+    def deep():
+        nonlocal found_any
         # property-specific search on the implementation alone (inputs too large for
         # the model evaluation): each hit is a concrete input on which the property,
         # as stated, fails on the real code
@@ -635,6 +628,18 @@ def standard_run(ctx, spec):
             obj = {"group": "deep", "case": case, "no_longer_checks": [{"kind": k, "detail": d} for k, d in broke]}
             violation(ctx, obj, True, summary, "-deep")
             found_any = True
+    if broke and not found_any and spec.get("deep_search") and spec.get("deep_search_first"):
+        deep()
+    if broke and not found_any:
+        # a proof obligation or the correspondence no longer checks: search for a
+        # concrete failing input with larger budgets before reporting
+        for s in range(spec.get("search_seeds", 3)):
+            rr = one_round(ctx.seed * 1000 + 17 + s, "search", "-s%d" % s)
+            if rr is None or found_any:
+                break
+        ctx.coverage["search_rounds_after_break"] = s + 1
+    if broke and not found_any and spec.get("deep_search") and not spec.get("deep_search_first"):
+        deep()
     if broke and not found_any:
         what = "; ".join("%s: %s" % (k, d.split("\n")[0][:200]) for k, d in broke[:4])
         violation(ctx, {"no_longer_checks": [{"kind": k, "detail": d} for k, d in broke],
